@@ -82,15 +82,25 @@ func parent(o *common.Options) int {
 	cmd.Stderr = &stderr
 	runErr := cmd.Run()
 	if b, err := os.ReadFile(childOut); err == nil && json.Valid(b) {
-		if o.Out == "" || o.Out == "-" {
-			os.Stdout.Write(b)
-		}
 		if runErr != nil {
+			if o.Out == "" || o.Out == "-" {
+				os.Stdout.Write(b)
+			}
 			os.Stderr.Write(stderr.b)
 			if ee, ok := runErr.(*exec.ExitError); ok {
 				return ee.ExitCode()
 			}
 			return 3
+		}
+		if o.Thorough() && o.Replay == "" && os.Getenv(onlyEnv) == "" && os.Getenv("CORR_C19_NORACE") == "" {
+			racePass(o, childOut)
+			if o.Out == "" || o.Out == "-" {
+				if b, err := os.ReadFile(childOut); err == nil {
+					os.Stdout.Write(b)
+				}
+			}
+		} else if o.Out == "" || o.Out == "-" {
+			os.Stdout.Write(b)
 		}
 		return 0
 	}
